@@ -173,6 +173,7 @@ class Reference:
         self.o_bytes = (self.dir / self.o_name).read_bytes() if (self.dir / self.o_name).exists() else b""
         self.so_bytes = (self.dir / self.so_name).read_bytes()
         self.kernel_ok = kernel_ok(f, mod)
+        self.mod = mod
 
     def _kind(self, n):
         if n.endswith(".c.cached"):
@@ -418,6 +419,10 @@ class Patches:
         self.ref = ref
         self.current: Scenario | None = None
         self._saved = None
+        # number of byte-identical `.so` copies that are really dlopen'ed; beyond it the (already
+        # loaded, byte-identical) reference module is handed out instead, to bound address space
+        self.real_load_budget = 2500
+        self.real_loads = 0
 
     def scenario(self, n, timeout, cache_dir, **kw) -> Scenario:
         sc = Scenario(self, n, timeout, cache_dir, **kw)
@@ -501,6 +506,9 @@ class Patches:
             st.loaded.append(state)
             if state != "complete":
                 raise ImportError(f"{spec.origin}: extension module is {state} (import simulated by harness/sched.py)")
+            if self.real_loads >= self.real_load_budget:
+                return ref.mod
+            self.real_loads += 1
             return importlib.util.module_from_spec(spec)
 
         return sc.gate("load", act, lambda v, e: st.loaded[-1])
@@ -752,3 +760,62 @@ def compare(sc: Scenario, reply, schedule):
         if st.sleeps != st.polls:
             diffs.append(("sleeps", st.pid, st.sleeps, st.polls))
     return diffs
+
+
+# ----------------------------------------------------------------- real processes (end to end)
+
+
+def _worker_main(argv):
+    """`python -m harness.sched worker <cache_dir> <timeout> <barrier_dir> <id> <n>`: one real request."""
+    import json
+
+    cache_dir, timeout, barrier, wid, n = argv[0], int(argv[1]), Path(argv[2]), argv[3], int(argv[4])
+    form = tiny_form()
+    (barrier / f"ready{wid}").write_text("x")
+    t0 = _time.time()
+    while len([x for x in os.listdir(barrier) if x.startswith("ready")]) < n:
+        if _time.time() - t0 > 60:
+            break
+        _time.sleep(0.005)
+    out = {"id": wid}
+    try:
+        objs, mod, code = jit.compile_forms([form], cache_dir=cache_dir, timeout=timeout)
+        ok, val = kernel_ok(objs[0], mod)
+        out.update(built=code[0] is not None, kernel_ok=ok, value=val)
+    except BaseException as e:  # noqa: BLE001
+        out.update(exc=type(e).__name__, msg=str(e)[:200])
+    out["handlers_ok"] = logging.getLogger().handlers == []
+    out["stdout_ok"] = sys.stdout is sys.__stdout__
+    print("RESULT " + json.dumps(out))
+
+
+def real_processes(cache_dir: Path, barrier: Path, n=3, timeout=60):
+    """n real processes request the tiny form on one cache directory simultaneously."""
+    import json
+    import subprocess
+
+    barrier.mkdir(parents=True, exist_ok=True)
+    env = dict(os.environ)
+    env["PYTHONPATH"] = str(Path(__file__).resolve().parent.parent) + os.pathsep + env.get("PYTHONPATH", "")
+    ps = [
+        subprocess.Popen(
+            [sys.executable, "-m", "harness.sched", "worker", str(cache_dir), str(timeout), str(barrier), str(i), str(n)],
+            stdout=subprocess.PIPE, stderr=subprocess.PIPE, text=True, env=env,
+        )
+        for i in range(n)
+    ]
+    res = []
+    for p in ps:
+        try:
+            o, e = p.communicate(timeout=300)
+        except subprocess.TimeoutExpired:
+            p.kill()
+            o, e = p.communicate()
+        line = [l for l in o.splitlines() if l.startswith("RESULT ")]
+        res.append(json.loads(line[-1][7:]) if line else {"exc": "no-result", "msg": (e or "")[-300:]})
+    return res
+
+
+if __name__ == "__main__":
+    if len(sys.argv) > 1 and sys.argv[1] == "worker":
+        _worker_main(sys.argv[2:])
